@@ -56,10 +56,11 @@ else:
         if r.n_atoms != src.n_atoms or [a.element for a in r.atoms] != [a.element for a in src.atoms] or not np.allclose(r.coords, src.coords, atol=1e-6):
             bad.append(f"{cls.__name__}: xyz round trip changed atoms/coordinates")
     e = ml.ConformerEnsemble(m, n_conformers=2)
-    e.coords = np.stack([m.coords, m.coords + 1.5])
+    want = np.stack([m.coords, m.coords + 123.456789])          # not representable in single precision to 1e-6
+    e.coords = want
     try:
         r = ml.ConformerEnsemble.loads_xyz(e.dumps_xyz())
-        if r.coords.shape != e.coords.shape or not np.allclose(r.coords, e.coords, atol=1e-6):
+        if r.coords.shape != want.shape or not np.allclose(r.coords, want, atol=1e-6, rtol=0):
             bad.append("ensemble xyz round trip changed frames")
     except BaseException as ex:
         bad.append(f"ConformerEnsemble: molli rejects its own xyz output: {type(ex).__name__}: {str(ex)[:80]}")
